@@ -67,13 +67,18 @@ Proof.
 Qed.
 Print Assumptions c15_units_wrapped_partial.
 
-(* partial because: the V2 borrow sweep calls LiquidateIndividualBorrow for each borrow WITHOUT a
-   wrap and returns at the first error (x/liquidationsV2/keeper/liquidate.go:247-252), and the
-   V2 surplus / debt trigger loop (liquidate.go:452-466) likewise *)
-Theorem c15_v2_borrow_unwrapped_refuted :
-  exists u, In u hook_units /\ kf_C15_1 (u_id u) = true /\ unit_is_wrapped hook_table u = false.
+(* the V2 borrow unit (one LiquidateIndividualBorrow) used to be the class kf_C15_1: the loop of
+   LiquidateBorrows called it WITHOUT a wrap and returned at the first error.  Repaired by fix
+   C09-F3 / C15-F1 (each borrow inside ApplyFuncIfNoError): on the regenerated table the unit is
+   wrapped per item (the former witness of c15_v2_borrow_unwrapped_refuted, kept as a regression) *)
+Theorem c15_v2_borrow_wrapped_fixed :
+  exists u, In u hook_units /\ u_id u = "v2.borrow"%string /\ unit_known_unwrapped u = false /\
+            unit_is_wrapped hook_table u = true.
 Proof. exists (nth 3 hook_units (mkUnit "" "" "" [])). vm_compute. repeat split. right. right. right. left. reflexivity. Qed.
-Print Assumptions c15_v2_borrow_unwrapped_refuted.
+Print Assumptions c15_v2_borrow_wrapped_fixed.
+
+(* partial because: the V2 surplus / debt trigger loop (liquidate.go:452-466) calls
+   CheckStatsForSurplusAndDebt for each (app, asset) WITHOUT a wrap and returns at the first error *)
 
 Theorem c15_v2_surplusdebt_unwrapped_refuted :
   exists u, In u hook_units /\ kf_C15_3 (u_id u) = true /\ unit_is_wrapped hook_table u = false.
@@ -97,7 +102,7 @@ Print Assumptions c15_table_closed.
        and offset + batch does not overflow int; a range index is in range; x[:0] is valid; the
        market hook's UpdatePriceList does not panic for window size >= 1 (after fix b0fc61e) (C17).
    partial: JStoreWrite / JBand leaves and reads are modelled as total (protobuf decoding of stored
-   records, ibc send), JKnownFinding leaves are the classes kf_C15_1 / kf_C15_3. *)
+   records, ibc send), the JKnownFinding leaf is the class kf_C15_3. *)
 Theorem c15_unwrapped_total_partial :
   (forall l, In l (all_root_leaves hook_table) -> unwrapped_leaf_ok l = true) /\
   (forall (A : Type) (zero : A) (l : list A) cap counter off batch,
@@ -172,13 +177,27 @@ Example c15_loop_continues :
   = RunOk 4.
 Proof. vm_compute. reflexivity. Qed.
 
-(* the same loop WITHOUT the wrap (the V2 borrow shape): the failing item's partial write stays
-   and the remaining items are not processed *)
+(* the same loop WITHOUT the wrap (the shape of the V2 borrow loop before fix C09-F3 / C15-F1, and
+   still the shape of the V2 surplus / debt loop): the failing item's partial write stays and the
+   remaining items are not processed *)
 Example c15_unwrapped_loop_stops :
   run_hook (fun n idx (s : Z) => match idx with [1%nat] => RunErr (s + 100) 1 | [j] => RunOk (s + Z.of_nat j + 1) | _ => RunOk s end)
        (fun _ _ _ _ => false) (fun _ _ _ => 3%nat)
        (ForEach "newBorrowIDs" (Seq [Call "liquidationsV2.LiquidateIndividualBorrow" Writes])) 0
   = Returned 101.
+Proof. vm_compute. reflexivity. Qed.
+
+(* regression of C15-F1 on the REAL regenerated row of liquidationsV2.LiquidateBorrows: borrow 1
+   of 3 panics after a partial write (an active oracle price of 0: division by zero): the hook
+   returns, the partial write is dropped and borrows 0 and 2 are processed completely *)
+Example c15_v2_borrow_loop_continues :
+  run_hook (fun n idx (s : Z) =>
+              if String.eqb n "liquidationsV2.LiquidateIndividualBorrow"
+              then match idx with [1%nat] => RunPanic (s + 100) | [j] => RunOk (s + Z.of_nat j + 1) | _ => RunOk s end
+              else RunOk s)
+           (fun _ _ _ _ => false) (fun _ _ _ => 3%nat)
+           (resolved hook_table "liquidationsV2.LiquidateBorrows") 0
+  = Returned 4.
 Proof. vm_compute. reflexivity. Qed.
 
 (* hypotheses of the sweep lemma are met by a concrete state: 5 vaults, counter 5, offset 2, batch 2 *)
